@@ -120,6 +120,21 @@ def native_crash_v2(vals, byte_at, patches):
             self.pos += len(data)
             self.vlen = max(self.vlen, self.pos)
             return len(data)
+
+        cut = None
+
+        def truncate(self, size=None):
+            # metadata operation, takes effect at once unless the crash came first
+            self._flush()
+            size = self.pos if size is None else size
+            if self.nflush <= k:
+                self.over = {p: v for p, v in self.over.items() if p < size}
+                self.cut = size if self.cut is None else min(self.cut, size)
+            self.vlen = size
+            return size
+
+        def close(self):
+            self._flush()
     f0 = ModelFile(L, byte_at)
     off_o, size_o = entry(f0, x, y)
     off_b, size_b = entry(f0, x2, y2)
@@ -139,11 +154,16 @@ def native_crash_v2(vals, byte_at, patches):
     f.vlen = L
     f.reads = f0.reads
     try:
-        b._store_tile(f, (x, y, 0), bytes(payload))
+        # as in store_tiles: the handle comes from the real _readwrite() (existing bundle file)
+        C.__dict__['open'] = lambda name, mode='r': f
+        b.filename = '/b/R0000C0000.bundle'
+        b._init_index = lambda: None
+        with b._readwrite() as fh:
+            b._store_tile(fh, (x, y, 0), bytes(payload))
         f._flush()
     except Exception as e:
         return True, 'real code raised %s: %s' % (type(e).__name__, e), f
-    r = ModelFile(f.length, lambda p: f.over.get(p, byte_at(p) if p < L else 0))
+    r = ModelFile(f.length, lambda p: f.over.get(p, 0 if (f.cut is not None and p >= f.cut) else (byte_at(p) if p < L else 0)))
     off_w, size_w = entry(r, x, y)
     off_a, size_a = entry(r, x2, y2)
     same = (x % 128 == x2 % 128) and (y % 128 == y2 % 128)
@@ -186,6 +206,13 @@ def run_crash_v2(spec):
             out['cex'] = vals
             return out
         ok, detail, f = native_crash_v2(vals, model_byte_fn(m, st.arr0), patches)
+        if not ok and a.get('part') == 'other-slot-unaffected':
+            # the frame obligation speaks about every crash point at once: look for the one that shows it on the real code
+            for k2 in list(range(len(st.log) + 1)) + [10 ** 6]:
+                ok, detail, f = native_crash_v2(dict(vals, k=k2), model_byte_fn(m, st.arr0), patches)
+                if ok:
+                    vals['k'] = k2
+                    break
         vals['bytes'] = {str(k_): v for k_, v in sorted(f.reads.items())[:400]}
         out.update(cex=vals, replayed=ok, detail=(out['detail'] + ' | replay: ' + detail).strip(' |'))
     return out
